@@ -9,9 +9,24 @@ namespace Proto
 /-- the round trip of the value `x` of field `f` -/
 def FieldOK (P : Prims) (lossy : Bool) (pool : Pool) (f : Field) (x : Value) : Prop :=
   ∃ pv, convField P lossy pool f x = some pv ∧ validFor f pv = true ∧
+    (f.isList = true → ∃ xs, pv = .list xs) ∧
     hasValue pool f pv = !isDefaultValue pool f x ∧
-    ∀ g : Field, g.kind = f.kind → g.isMap = f.isMap →
-      toValue pool (some g) pv = some (dropDefaults pool f x)
+    ∀ (mode : Option Bool) (g : Field), g.kind = f.kind → g.isMap = f.isMap →
+      toValue pool (some g) (normOpt pool mode pv) = some (dropDefaults pool f x)
+
+def normListOpt (pool : Pool) : Option Bool → PList → PList
+  | none, xs => xs
+  | some w, xs => normList pool w xs
+
+def normMapOpt (pool : Pool) : Option Bool → PMap → PMap
+  | none, es => es
+  | some w, es => normMap pool w es
+
+theorem normOpt_of_scalar (pool : Pool) (mode : Option Bool) (pv : PValue) (s : Scalar)
+    (h : validKind pv (.scalar s) = true) : normOpt pool mode pv = pv := by
+  cases mode with
+  | none => rfl
+  | some w => cases pv <;> simp_all [normOpt, normalize, validKind]
 
 /-! ### small facts used by the recursion -/
 
@@ -59,14 +74,15 @@ theorem fieldOK_scalar (P : Prims) (lossy : Bool) (pool : Pool) (nm : List Nat) 
   have hdd : dropDefaults pool ⟨nm, num, .scalar s, c⟩ x = x := by
     rcases hc with rfl | rfl <;> cases x <;> simp [dropDefaults]
   obtain ⟨pv, h1, h2, h3, h4⟩ := rt_scalar P lossy pool (isSing c) s x hds
-  refine ⟨pv, by rw [hconv, h1], ?_, ?_, ?_⟩
+  refine ⟨pv, by rw [hconv, h1], ?_, ?_, ?_, ?_⟩
   · rcases hc with rfl | rfl <;> cases pv <;> simp_all [validFor, validKind]
+  · rcases hc with rfl | rfl <;> (intro h; simp [Field.isList] at h)
   · rcases hc with rfl | rfl
     · simp only [hasValue, Field.presence, Bool.false_or]
       rw [h4 ⟨nm, num, .scalar s, .singular⟩ rfl rfl rfl]
     · cases x <;> simp [hasValue, Field.presence, isDefaultValue]
-  · intro g _ _
-    rw [hdd]; exact h3 (some g)
+  · intro mode g _ _
+    rw [hdd, normOpt_of_scalar pool mode pv s h2]; exact h3 (some g)
 
 theorem fieldOK_enum (P : Prims) (lossy : Bool) (pool : Pool) (hok : pool.Ok = true) (nm : List Nat)
     (num : Nat) (e : Nat) (c : Card) (b : List Nat) (hc : c = .singular ∨ c = .optional)
@@ -90,8 +106,9 @@ theorem fieldOK_enum (P : Prims) (lossy : Bool) (pool : Pool) (hok : pool.Ok = t
   have hnum := EnumDesc.byNumber_of_mem hedok hm
   have hconv : convField P lossy pool ⟨nm, num, .enum e, c⟩ (.bytes b) = some (.enumNumber n) := by
     rcases hc with rfl | rfl <;> simp [convField, he, hlossy, hby]
-  refine ⟨.enumNumber n, hconv, ?_, ?_, ?_⟩
+  refine ⟨.enumNumber n, hconv, ?_, ?_, ?_, ?_⟩
   · rcases hc with rfl | rfl <;> simp [validFor, validKind]
+  · rcases hc with rfl | rfl <;> (intro h; simp [Field.isList] at h)
   · rcases hc with rfl | rfl
     · simp only [hasValue, Field.presence, Bool.false_or, isDefault, Field.isList, Field.isMap,
         Bool.or_self, Bool.false_eq_true, if_false, he, isDefaultValue]
@@ -102,13 +119,15 @@ theorem fieldOK_enum (P : Prims) (lossy : Bool) (pool : Pool) (hok : pool.Ok = t
       · have : ¬ (b, ed.dflt) ∈ ed.values := fun hm' => hnd (EnumDesc.number_unique hedok hm hm')
         simp [hnd, this]
     · simp [hasValue, Field.presence, isDefaultValue]
-  · intro g hk _
+  · intro mode g hk _
     obtain ⟨gn, gnum, gk, gc⟩ := g
     simp only at hk
     subst hk
     have hdd : dropDefaults pool ⟨nm, num, .enum e, c⟩ (.bytes b) = .bytes b := by
       rcases hc with rfl | rfl <;> simp [dropDefaults]
-    rw [hdd]
+    have hno : normOpt pool mode (.enumNumber n) = .enumNumber n := by
+      cases mode <;> simp [normOpt, normalize]
+    rw [hdd, hno]
     simp [toValue, he, hnum]
 
 theorem fieldOK_message (P : Prims) (lossy : Bool) (pool : Pool) (hok : pool.Ok = true) (nm : List Nat)
@@ -124,15 +143,18 @@ theorem fieldOK_message (P : Prims) (lossy : Bool) (pool : Pool) (hok : pool.Ok 
     hmdok.1 hmdok.2 hs hkeys (fun f hf => hl f (findField_of_mem md.fields f hmdok.1 hf))
   have hconv : convField P lossy pool ⟨nm, num, .message r, c⟩ (.obj m) = some (.message r fs) := by
     rcases hc with rfl | rfl <;> simp [convField, hmd, h1]
-  refine ⟨.message r fs, hconv, ?_, ?_, ?_⟩
+  refine ⟨.message r fs, hconv, ?_, ?_, ?_, ?_⟩
   · rcases hc with rfl | rfl <;> simp [validFor, validKind]
+  · rcases hc with rfl | rfl <;> (intro h; simp [Field.isList] at h)
   · rcases hc with rfl | rfl <;>
       simp [hasValue, Field.presence, isDefault, Field.isList, Field.isMap, isDefaultValue]
-  · intro g _ _
+  · intro mode g _ _
     have hdd : dropDefaults pool ⟨nm, num, .message r, c⟩ (.obj m) = .obj (ddMap pool md.fields m) := by
       rcases hc with rfl | rfl <;> simp [dropDefaults, hmd]
-    rw [hdd]
-    simp [toValue, hmd, h2]
+    have hno : normOpt pool mode (.message r fs) = .message r (normFieldsOpt pool md.fields mode fs) := by
+      cases mode <;> simp [normOpt, normFieldsOpt, normalize, hmd]
+    rw [hdd, hno]
+    simp [toValue, hmd, h2 mode]
 
 def isLeaf : Value → Bool
   | .null => false
@@ -198,13 +220,16 @@ mutual
         simp only [defect] at hd
         simp only [Value.Sorted] at hs
         obtain ⟨xs, h1, h2, h3, h4⟩ := rt_list P lossy pool hok k a hs hd
-        refine ⟨.list xs, by simp [convField, h1], by simp [validFor, h2], ?_, ?_⟩
+        refine ⟨.list xs, by simp [convField, h1], by simp [validFor, h2], fun _ => ⟨xs, rfl⟩, ?_, ?_⟩
         · simp only [hasValue, Field.presence, Bool.false_or, isDefault, Field.isList, Bool.true_and, h3]
           cases a <;> simp [isDefaultValue, VList.isEmpty]
-        · intro g hk hm
+        · intro mode g hk hm
           simp only at hk
           have hm' : g.isMap = false := hm
-          simp [toValue, h4 g hk hm', dropDefaults]
+          have hno : normOpt pool mode (.list xs) = .list (normListOpt pool mode xs) := by
+            cases mode <;> simp [normOpt, normListOpt, normalize]
+          rw [hno]
+          simp [toValue, h4 mode g hk hm', dropDefaults]
       | singular => simp [defect] at hd
       | optional => simp [defect] at hd
       | map ks => simp [defect] at hd
@@ -214,13 +239,17 @@ mutual
       | map ks =>
         simp only [defect] at hd
         obtain ⟨es, h1, h2, h3, _, h5⟩ := rt_entries P lossy pool hok ks k m hs hd
-        refine ⟨.map es, by simp [convField, h1], by simp [validFor, h2], ?_, ?_⟩
+        refine ⟨.map es, by simp [convField, h1], by simp [validFor, h2],
+          by intro h; simp [Field.isList] at h, ?_, ?_⟩
         · simp only [hasValue, Field.presence, Bool.false_or, isDefault, Field.isMap, Bool.true_and, h3]
           cases m <;> simp [isDefaultValue, VMap.isEmpty]
-        · intro g hk hm
+        · intro mode g hk hm
           simp only at hk
           have hm' : g.isMap = true := hm
-          have := h5 g.entryValue (by simp [Field.entryValue, hk]) (by simp [Field.entryValue, Field.isMap])
+          have := h5 mode g.entryValue (by simp [Field.entryValue, hk]) (by simp [Field.entryValue, Field.isMap])
+          have hno : normOpt pool mode (.map es) = .map (normMapOpt pool mode es) := by
+            cases mode <;> simp [normOpt, normMapOpt, normalize]
+          rw [hno]
           simp [toValue, hm', this, dropDefaults]
       | repeated => simp [defect] at hd
       | singular =>
@@ -252,8 +281,9 @@ mutual
   theorem rt_list (P : Prims) (lossy : Bool) (pool : Pool) (hok : pool.Ok = true) :
       (k : Kind) → (a : VList) → a.Sorted = true → defectList pool k a = none →
       ∃ xs, convList P lossy pool a k = some xs ∧ xs.allValid k = true ∧ xs.isEmpty = a.isEmpty ∧
-        ∀ g : Field, g.kind = k → g.isMap = false → toValueList pool (some g) xs = some (ddList pool k a)
-    | k, .nil, _, _ => ⟨.nil, rfl, rfl, rfl, fun _ _ _ => rfl⟩
+        ∀ (mode : Option Bool) (g : Field), g.kind = k → g.isMap = false →
+          toValueList pool (some g) (normListOpt pool mode xs) = some (ddList pool k a)
+    | k, .nil, _, _ => ⟨.nil, rfl, rfl, rfl, fun mode _ _ _ => by cases mode <;> rfl⟩
     | k, .cons x xs, hs, hd => by
       simp only [VList.Sorted, Bool.and_eq_true] at hs
       simp only [defectList] at hd
@@ -261,22 +291,26 @@ mutual
       | some d => simp [hdx] at hd
       | none =>
         simp only [hdx] at hd
-        obtain ⟨pv, h1, h2, _, h4⟩ := rt_field P lossy pool hok (Field.plain k) x hs.1 hdx
+        obtain ⟨pv, h1, h2, _, _, h4⟩ := rt_field P lossy pool hok (Field.plain k) x hs.1 hdx
         obtain ⟨pvs, g1, g2, _, g4⟩ := rt_list P lossy pool hok k xs hs.2 hd
         refine ⟨.cons pv pvs, by simp [convList, h1, g1], ?_, rfl, ?_⟩
         · rw [validFor_plain] at h2; simp [PList.allValid, h2, g2]
-        · intro g hk hm
-          have e1 := h4 g (by simpa [Field.plain] using hk) (by simpa [Field.plain, Field.isMap] using hm)
-          simp [toValueList, e1, g4 g hk hm, ddList]
+        · intro mode g hk hm
+          have e1 := h4 mode g (by simpa [Field.plain] using hk) (by simpa [Field.plain, Field.isMap] using hm)
+          have e2 := g4 mode g hk hm
+          have hno : normListOpt pool mode (.cons pv pvs) = .cons (normOpt pool mode pv) (normListOpt pool mode pvs) := by
+            cases mode <;> simp [normOpt, normListOpt, normList]
+          rw [hno]
+          simp [toValueList, e1, e2, ddList]
   theorem rt_entries (P : Prims) (lossy : Bool) (pool : Pool) (hok : pool.Ok = true) :
       (ks : Scalar) → (vk : Kind) → (m : VMap) → m.Sorted = true → defectEntries pool ks vk m = none →
       ∃ es, convEntries P lossy pool m ks vk = some es ∧ es.allValid ks vk = true ∧
         es.isEmpty = m.isEmpty ∧
         (∀ mk, es.has mk = true → (m.get (showMapKey mk)).isSome = true) ∧
-        ∀ vf : Field, vf.kind = vk → vf.isMap = false →
-          toValueEntries pool vf es = some (ddEntries pool vk m)
+        ∀ (mode : Option Bool) (vf : Field), vf.kind = vk → vf.isMap = false →
+          toValueEntries pool vf (normMapOpt pool mode es) = some (ddEntries pool vk m)
     | ks, vk, .nil, _, _ =>
-      ⟨.nil, rfl, rfl, rfl, by intro mk h; simp [PMap.has] at h, fun _ _ _ => rfl⟩
+      ⟨.nil, rfl, rfl, rfl, by intro mk h; simp [PMap.has] at h, fun mode _ _ _ => by cases mode <;> rfl⟩
     | ks, vk, .cons k x rest, hs, hd => by
       simp only [VMap.Sorted, Bool.and_eq_true] at hs
       simp only [defectEntries] at hd
@@ -287,7 +321,7 @@ mutual
         | none =>
           simp only [hdx] at hd
           obtain ⟨mk, hparse, hshow⟩ := canonicalKey_spec hcan
-          obtain ⟨pv, h1, h2, _, h4⟩ := rt_field P lossy pool hok (Field.plain vk) x hs.1.1 hdx
+          obtain ⟨pv, h1, h2, _, _, h4⟩ := rt_field P lossy pool hok (Field.plain vk) x hs.1.1 hdx
           obtain ⟨es, e1, e2, _, e4, e5⟩ := rt_entries P lossy pool hok ks vk rest hs.2 hd
           have hnew : es.has mk = false := by
             cases hh : es.has mk with
@@ -308,10 +342,13 @@ mutual
               split
               · rfl
               · exact this
-          · intro vf hk hm
-            have t1 := h4 vf (by simpa [Field.plain] using hk) (by simpa [Field.plain, Field.isMap] using hm)
+          · intro mode vf hk hm
+            have t1 := h4 mode vf (by simpa [Field.plain] using hk) (by simpa [Field.plain, Field.isMap] using hm)
             have hag := allGt_ddEntries pool vk rest k hs.1.2
-            simp [toValueEntries, t1, e5 vf hk hm, ddEntries, hshow, insertNew,
+            have hno : normMapOpt pool mode (.cons mk pv es) = .cons mk (normOpt pool mode pv) (normMapOpt pool mode es) := by
+              cases mode <;> simp [normOpt, normMapOpt, normMap]
+            rw [hno]
+            simp [toValueEntries, t1, e5 mode vf hk hm, ddEntries, hshow, insertNew,
               get_none_of_allGt _ k k hag (Or.inl rfl), insert_of_allGt _ k _ hag]
       · cases hd
   theorem rt_lookup (P : Prims) (lossy : Bool) (pool : Pool) (hok : pool.Ok = true) :
@@ -334,12 +371,12 @@ mutual
           · subst hk
             rw [hf] at hfk
             cases hfk
-            obtain ⟨pv, h1, h2, h3, h4⟩ := rt_field P lossy pool hok f x hs.1.1 hdx
+            obtain ⟨pv, h1, h2, hl, h3, h4⟩ := rt_field P lossy pool hok f x hs.1.1 hdx
             refine ⟨some pv, ?_, ?_⟩
             · simp only [convLookup, if_true, h1]
               cases x <;> first | (simp [defect] at hdx; done) | rfl
             · simp only [FieldRT, VMap.get, if_true]
-              exact ⟨pv, rfl, h2, h3, h4 f rfl rfl⟩
+              exact ⟨pv, rfl, h2, hl, h3, fun mode => h4 mode f rfl rfl⟩
           · obtain ⟨o, h1, h2⟩ := rt_lookup P lossy pool hok fields rest hs.2 hd f hf
             refine ⟨o, ?_, ?_⟩
             · simp [convLookup, hk, h1]
